@@ -29,6 +29,10 @@ def _summ(prog: Program, cls: str, name: str) -> int:
                 return base
             if isinstance(base, VS) and e.attr == "copy":
                 return ("vscopy", base)
+            if isinstance(base, VS):
+                m = prog.resolve_method(cls, e.attr)
+                if m is not None:
+                    return ("boundmethod", base, m)
             return super().ev_Attribute(e, env)
 
         def ev_Call(self, e, env):
